@@ -23,7 +23,7 @@ DEV_ASSUMPTION = (
     "in-memory block devices ArrW/ArrR/CurW (harness/common.rs) stand for RollingWriter/RollingReader: "
     "zero-prefilled, next_block never fails, a single stream without file boundaries")
 
-HOOK_COMMITS = ["51e6703", "9b45c9b", "5309720", "1550565"]
+HOOK_COMMITS = ["51e6703", "9b45c9b", "5309720", "1550565", "35b25f3"]
 
 NA_GLUE = ("the deciding mechanism lives in MultiRecordLog / RollingReader / RollingWriter / Directory over std::fs, std::path, "
            "core::fmt and HashMap; symbolic execution of those std bodies does not terminate under CBMC in this sandbox "
@@ -44,17 +44,19 @@ CHECKS = {
         "level_text": ("Bounded model checking of the real writer/reader code: for every (alignment x length x follower) of the "
                        "stated small geometry and every payload byte value, what RecordWriter writes is what RecordReader "
                        "returns, in order; split/padding arithmetic additionally decided at the real 32 KiB block size with "
-                       "symbolic cursor and length. Bounded, not a proof: entries <= 3 blocks, block sizes 16/32 on the data path."),
+                       "symbolic cursor and length. c07_resume_*: the real FrameReader<RollingReader>::into_writer / RollingReader::{next_block,into_writer} / "
+                       "RollingWriter::forward (file system calls stubbed) on a last block whose entry leaves 0 / 6 / 7 / 8 / 100 bytes: the writer resumes "
+                       "exactly where the reader will look for the next frame header. Bounded, not a proof: entries <= 3 blocks, block sizes 16/32 on the data path."),
         "level_note": ("trusted: rustc MIR + kani-compiler lowering, CBMC, CaDiCaL; the checksum oracle stub (real CRC-32 not executed); "
                        "array-backed block devices instead of the rolling files; file roll-over is outside"),
         "filters": ["c07_", "c15_real"],
         "quick": {
-            "harnesses": [("16", "c07_rt_q*"), ("real", "c15_real_q*"), ("real", "c15_real_frame_q")],
+            "harnesses": [("16", "c07_rt_q*"), ("real", "c15_real_q*"), ("real", "c15_real_frame_q"), ("real", "c07_resume_q*")],
             "jobs": 14, "timeout": 900,
         },
         "thorough": {
             "harnesses": [("16", "c07_rt_q*"), ("16", "c07_rt_t*"), ("32", "c07_rt_t32_*"),
-                          ("real", "c15_real_*")],
+                          ("real", "c15_real_*"), ("real", "c07_resume_q*")],
             "jobs": 8, "timeout": 3000, "solvers": ["cadical"],
         },
         "rule": ("case = (l0, l1, l2): three entries written back to back through the real RecordWriter into "
@@ -309,9 +311,9 @@ CHECKS = {
                        "Crashes inside file creation/removal or GC, the writer resuming behind the torn tail (RollingReader::into_writer) "
                        "and usability after recovery are file-layer / MultiRecordLog glue and not claimed."),
         "level_note": "trusted: kani-compiler, CBMC, CaDiCaL; ideal-checksum oracle for the torn frame; effects reach the zero-prefilled file in program order (process-crash model)",
-        "filters": ["c02_", "c06_gcroll"],
-        "quick": {"harnesses": [("16", "c02_torn_q*"), ("16", "c02_resume_q*"), ("real", "c06_gcroll_q*")], "jobs": 14, "timeout": 1500},
-        "thorough": {"harnesses": [("16", "c02_torn_*"), ("16", "c02_resume_*"), ("32", "c02_*_t32_*"), ("real", "c06_gcroll_q*")], "jobs": 8, "timeout": 3000},
+        "filters": ["c02_", "c06_gcroll", "c07_resume"],
+        "quick": {"harnesses": [("16", "c02_torn_q*"), ("16", "c02_resume_q*"), ("real", "c06_gcroll_q*"), ("real", "c07_resume_q*")], "jobs": 14, "timeout": 1500},
+        "thorough": {"harnesses": [("16", "c02_torn_*"), ("16", "c02_resume_*"), ("32", "c02_*_t32_*"), ("real", "c06_gcroll_q*"), ("real", "c07_resume_q*")], "jobs": 8, "timeout": 3000},
         "rule": "case = (length triple, cut offset), every offset 0..=end; non-trivial = the cut falls inside a frame payload; counted from the symex log",
         "samples": ["c02_torn_q_a_c036: lengths (5,20,1), cuts 36..41 (inside the Middle frame of entry 1)",
                     "c02_resume_q_a_n4_f0: crash after frame 0/1/2 of (5,20,1) (frame 1 = orphan First frame of entry 1), then a real writer resumes there with a new 4-byte entry; recover all"],
